@@ -18,7 +18,12 @@ MASK64 = 0xFFFFFFFFFFFFFFFF
 OUT = "cond-out"
 INDEX = "version_index.sqlite"
 AINDEX = "version_index_archive.sqlite"
-STAGING = "archive-tmp"
+setup_impl_path()
+from conductor.config import ARCHIVE_STAGING as STAGING  # noqa: E402  pylint: disable=wrong-import-position
+
+# the staging directory is skipped by the observers only when its name cannot be a package of the project (D23: it
+# used to be `archive-tmp`, a legal package name, and restore wiped the outputs of that package)
+STAGING_IS_A_LEGAL_NAME = re.match(r"^[a-zA-Z0-9_-]+\Z", STAGING) is not None
 VDIR = re.compile(r"^(.+)\.task\.(\d+)$")
 
 # ------------------------------------------------------------------ Coq side of the channel
@@ -155,7 +160,7 @@ class ContentIds:
 
 
 # ------------------------------------------------------------------ generated projects
-PKGS = ["", "sub", "sub/deep", "other"]
+PKGS = ["", "sub", "sub/deep", "other", "archive-tmp"]   # the last one: the former name of restore's staging directory (D23)
 
 
 def task_str(pkg, name):
@@ -341,7 +346,7 @@ def version_dirs(root, ids):
             return
         for nm in names:
             p = os.path.join(d, nm)
-            if rel == "" and nm == STAGING:
+            if rel == "" and nm == STAGING and not STAGING_IS_A_LEGAL_NAME:
                 continue
             m = VDIR.match(nm)
             if m and not os.path.islink(p):
@@ -367,7 +372,7 @@ def version_snaps(root):
                 p = os.path.join(d, nm)
                 out[os.path.relpath(p, base)] = implrun.tree_snapshot(p) if not os.path.islink(p) else {"": "link"}
                 dirs.remove(nm)
-        if d == base and STAGING in dirs:
+        if d == base and STAGING in dirs and not STAGING_IS_A_LEGAL_NAME:
             dirs.remove(STAGING)
     return out
 
@@ -574,3 +579,52 @@ def run_jobs(fn, jobs, workers=None):
 
 def sub_rng(rng):
     return random.Random(rng.getrandbits(64))
+
+
+# ------------------------------------------------------------------ D23: restore's staging directory vs. a package of that name
+def staging_collision(chk, prop):
+    """A project has a package whose directory name is a name restore may use for its staging directory
+    (`archive-tmp`, the former value, and the current value when it is a legal package name).  That package has a
+    recorded experiment version.  (a) restoring an archive of another task and (b) a restore that fails (the file is
+    not an archive) must leave that version's row and directory exactly as they were."""
+    names = ["archive-tmp"] + ([STAGING] if STAGING_IS_A_LEGAL_NAME and STAGING != "archive-tmp" else [])
+    for pk in names:
+        files = {"COND": 'run_experiment(name="f", run="echo f > $COND_OUT/r.txt")\n',
+                 os.path.join(pk, "COND"): 'run_experiment(name="e", run="echo kept > $COND_OUT/r.txt; mkdir $COND_OUT/d; echo x > $COND_OUT/d/y")\n'}
+        a = implrun.make_project(files, name="stg-a")
+        b = implrun.make_project(files, name="stg-b")
+        apath = os.path.join(os.path.dirname(a), "f.tar.gz")
+        r1 = implrun.run_cond(["run", "//:f"], a)
+        r2 = implrun.run_cond(["archive", "//:f", "-o", apath], a)
+        r3 = implrun.run_cond(["run", "//%s:e" % pk], b)
+        if r1.code != 0 or r2.code != 0 or r3.code != 0 or not os.path.isfile(apath):
+            chk.violation("impl-violation", "staging-collision scenario: the set-up commands failed: %r %r %r" % (r1, r2, r3),
+                          {"input": {"part": "staging-collision", "package": pk}, "impl_observation": repr((r1, r2, r3))}, match_key={"part": "staging-collision-setup"}, size=1)
+            continue
+        garbage = os.path.join(os.path.dirname(a), "garbage.tar.gz")
+        with open(garbage, "wb") as fh:
+            fh.write(b"this is not an archive")
+        for label, arch, must_succeed in (("a restore that fails (the file is not an archive)", garbage, False), ("a successful restore of an archive of //:f", apath, True)):
+            rows_b = project_rows(b)
+            snaps_b = version_snaps(b)
+            rr = implrun.run_cond(["restore", arch], b)
+            rows_a = project_rows(b)
+            snaps_a = version_snaps(b)
+            chk.coverage["evaluations"] += 1
+            chk.count("staging-collision", "%s/%s" % (pk, "ok" if rr.code == 0 else "failed"))
+            problems = []
+            if must_succeed and rr.code != 0:
+                problems.append("the restore failed: %s" % (rr.err or rr.out)[-200:])
+            for rel, snap in snaps_b.items():
+                if snaps_a.get(rel) != snap:
+                    problems.append("the directory %s of the recorded version %r %s" % (rel, [r[:2] for r in rows_b if vdir_rel(r[0], r[1]) == rel],
+                                                                                        "is gone" if rel not in snaps_a else "was modified"))
+            if not set(rows_b) <= set(rows_a):
+                problems.append("recorded versions disappeared: %r" % sorted(set(rows_b) - set(rows_a)))
+            if rr.code != 0 and rows_a != rows_b:
+                problems.append("a failed restore changed the recorded versions: %r -> %r" % (rows_b, rows_a))
+            for what in problems:
+                chk.violation("impl-violation", "package //%s (its outputs live in cond-out/%s), %s: %s" % (pk, pk, label, what),
+                              {"input": {"part": "staging-collision", "package": pk, "files": files, "commands": [["run", "//%s:e" % pk], ["restore", os.path.basename(arch)]]},
+                               "impl_observation": {"exit": rr.code, "rows_before": rows_b, "rows_after": rows_a, "dirs_before": sorted(snaps_b), "dirs_after": sorted(snaps_a)},
+                               "oracle_verdict": what}, match_key={"part": "staging-collision", "package": pk}, size=0)
